@@ -58,6 +58,8 @@ pub struct Record {
     pub notes: Vec<String>,
     pub entropy_calls: u64,
     pub states_checked: usize,
+    /// fingerprints of the recorded intermediate D-sets (coverage measure)
+    pub state_fps: Vec<u64>,
     pub first_bad_state: Option<String>,
     pub micros: u64,
 }
@@ -86,6 +88,7 @@ impl Record {
             "notes": self.notes,
             "entropy_calls": self.entropy_calls,
             "states_checked": self.states_checked,
+            "state_fps": self.state_fps.iter().map(|f| format!("{:016x}", f)).collect::<Vec<_>>(),
             "first_bad_state": self.first_bad_state,
         })
     }
@@ -141,6 +144,7 @@ impl Record {
             notes: strs(&v["notes"]),
             entropy_calls: v["entropy_calls"].as_u64().unwrap_or(0),
             states_checked: v["states_checked"].as_u64().unwrap_or(0) as usize,
+            state_fps: v["state_fps"].as_array().map(|a| a.iter().map(|x| u64::from_str_radix(x.as_str().unwrap_or("0"), 16).unwrap_or(0)).collect()).unwrap_or_default(),
             first_bad_state: v["first_bad_state"].as_str().map(|s| s.to_string()),
             micros: v["micros"].as_u64().unwrap_or(0),
         }
@@ -741,6 +745,7 @@ impl Executor {
             };
             for (k, st) in ro.states.iter().enumerate() {
                 rec.states_checked += 1;
+                rec.state_fps.push(fnv64(st.to_text().as_bytes()));
                 if st.n == 0 {
                     if rec.first_bad_state.is_none() && expected_h1.as_ref().map_or(false, |h| !h.is_empty()) {
                         rec.first_bad_state = Some(format!("state {} ({}): empty", k, ro.state_tags[k]));
